@@ -127,6 +127,8 @@ def run_selftest(pid: str, repo: Repo, base_res) -> dict:
         results = []
     detected = [r for r in results if r[1] in ("detected", "silent-ok")]
     missed = [r for r in results if r[1] not in ("detected", "silent-ok")]
+    for msg in inapplicable:
+        print(f"SELFTEST-INAPPLICABLE property={pid} {msg}")
     for r in missed:
         print(f"SELFTEST-MISS property={pid} variant={r[0]} status={r[1]} got={r[2]}")
     return {
